@@ -163,6 +163,11 @@ func c05Templates() []*c05Query {
 		{tag: "group-order", aliases: []c05Alias{{"g", "int(value) / 4", I}, {"c", "count(1)", I}, {"s", "sum({g} + 1)", I}}, where: "{g} >= 0", suffix: " group by {g} order by {s} desc, {g}", kind: "group"},
 		{tag: "group-order-limit", aliases: []c05Alias{{"g", "strlen(value)", I}, {"c", "count({g})", I}, {"m", "max({g} * 2)", I}}, where: "{g} >= 1", suffix: " group by {g} order by {g} desc limit 1, 2", kind: "group"},
 		{tag: "group-limit", aliases: []c05Alias{{"g", "int(value) / 2", I}, {"s", "sum({g})", I}}, where: "{g} >= 1", suffix: " group by {g} limit 1, 2", kind: "group"},
+		// a name whose value was built by a concatenation (a byte slice with spare capacity), used
+		// more than once on the LEFT of another concatenation: results are values, not views of
+		// one buffer
+		{tag: "concat-left-twice", aliases: []c05Alias{{"p", "key + ':'", S}, {"kv", "{p} + value", S}, {"m", "{p} + 'end'", S}}, where: "key ^= 'k'", kind: "plain"},
+		{tag: "concat-left-thrice", lead: []string{"key"}, aliases: []c05Alias{{"p", "upper(value) + '-' + key", S}}, extra: []string{"{p} + 'a'", "{p} + 'bc'", "{p} + {p}"}, where: "{p} + 'x' != {p} + 'y'", kind: "plain"},
 		{tag: "group-by-two", aliases: []c05Alias{{"n", "int(value)", I}, {"p", "{n} / 3", I}, {"m", "max({n} + {p})", I}}, where: "{n} > 2 | {p} = 0", suffix: " group by {n}, {p}", kind: "group"},
 	}
 }
